@@ -513,3 +513,50 @@ Proof.
   intros Hin. pose proof (actions_ok sha1 cf disk ovf s ev r eq_refl) as H. rewrite forallb_forall in H.
   exact (H _ Hin).
 Qed.
+
+(* C12, what the task guarantees to the manager: an Unchoke is relayed only when the peer was choking us, and the
+   task's own flag then says "not choking"; a Choke is relayed for every Choke frame and sets the flag *)
+Theorem unchoke_relayed_only_when_choked sha1 cf disk ovf s m r :
+  Handler_ignore_repeated_unchoke = true ->
+  In (ACmd KUnchoke) (acts_of (hstep sha1 cf disk ovf s (EFrame m) r)) -> m = Unchoke /\ h_choked s = true.
+Proof.
+  intros F Hin. cbn [hstep] in Hin. unfold handle_frame in Hin.
+  destruct (Handler_gate_on_handshake && negb (h_hs_done s) && negb match m with Handshake _ _ => true | _ => false end); [destruct Hin|].
+  assert (NP : forall int i plen rx a, new_piece_request cf int i plen = (rx, a) -> ~ In (ACmd KUnchoke) a).
+  { unfold new_piece_request, send_request, new_rx. cbn [rx_left rx_index rx_requested rx_hash rx_buff]. intros int i plen rx a.
+    destruct (left_blocks plen) as [|[b1 l1] [|[b2 l2] rest]]; cbn [rx_left rx_index rx_requested rx_hash rx_buff app];
+      intros [= <- <-]; destruct int; cbn; intuition discriminate. }
+  destruct m as [ih pid| | | | | |i|bs|ri rb rl|i b blk|i b l]; try (cbn in Hin; intuition discriminate; fail).
+  - exfalso. destruct (negb (bytes_eqb ih (c_info_hash cf))); [destruct Hin|]. cbn [h_peer_id set_ka] in Hin.
+    destruct (h_peer_id s); [destruct (negb (bytes_eqb pid b)); destruct Hin|].
+    unfold init_handshake in Hin. destruct r as [[]|]; cbn in Hin; intuition discriminate.
+  - split; [reflexivity|]. rewrite F in Hin. cbn [set_ka h_choked andb] in Hin.
+    destruct (h_choked s); [reflexivity|]. cbn in Hin. destruct Hin.
+  - exfalso. destruct r as [[]|]; cbn in Hin; intuition discriminate.
+  - exfalso. destruct (c_pieces_num cf <=? i); [destruct Hin|].
+    destruct r as [[]|]; cbn [acts_of] in Hin; try (cbn in Hin; intuition discriminate).
+    match type of Hin with context [new_piece_request ?a ?b ?c ?d] => destruct (new_piece_request a b c d) as [rx a0] eqn:E end.
+    cbn [acts_of app] in Hin. destruct Hin as [Hin|Hin]; [discriminate | exact (NP _ _ _ _ _ E Hin)].
+  - exfalso. destruct (negb (bitfield_validate bs (c_pieces_num cf))); [destruct Hin|].
+    destruct r as [[]|]; cbn [acts_of] in Hin; try (cbn in Hin; intuition discriminate).
+    destruct with_unchoke, am_interested; cbn in Hin; intuition discriminate.
+  - exfalso. unfold handle_request in Hin.
+    assert (Hpre : ~ In (ACmd KUnchoke) (if need_ask (set_ka s 0) ri then [ACmd (KRequest ri)] else [])).
+    { destruct (need_ask (set_ka s 0) ri); cbn; intuition discriminate. }
+    destruct (load_tx cf disk (set_ka s 0) ri r) as [[t|]| | |]; cbn [acts_of] in Hin; try exact (Hpre Hin).
+    destruct (request_validate cf ovf ri rb rl (tx_index t) (len (tx_buff t))); cbn [acts_of] in Hin; try exact (Hpre Hin).
+    destruct (len (tx_buff t) <? rb + rl); cbn [acts_of] in Hin; [exact (Hpre Hin)|].
+    apply in_app_or in Hin. destruct Hin as [Hin|[Hin|[]]]; [exact (Hpre Hin) | discriminate].
+  - exfalso. unfold handle_piece in Hin. cbn [h_rx set_ka] in Hin.
+    destruct (h_rx s) as [rx|]; [|destruct Hin].
+    destruct (negb (is_requested rx i b blk)); [destruct Hin|]. cbn [rx_left] in Hin.
+    destruct (rx_left rx) as [|l0 ls].
+    + destruct (filter _ (rx_requested rx)) as [|q0 qs].
+      * cbn [rx_hash rx_index rx_buff rx_requested rx_left] in Hin.
+        destruct (negb (bytes_eqb _ _)); [destruct Hin|].
+        unfold after_piece_finish in Hin. destruct r as [[]|]; cbn [acts_of] in Hin; try (cbn in Hin; intuition discriminate).
+        destruct (new_piece_request cf false i0 len) as [rx' a'] eqn:E. cbn [acts_of app] in Hin.
+        destruct Hin as [Hin|[Hin|Hin]]; try discriminate. exact (NP _ _ _ _ _ E Hin).
+      * unfold send_request in Hin. cbn [rx_left] in Hin. destruct Hin.
+    + unfold send_request in Hin. cbn [rx_left] in Hin. destruct l0. cbn in Hin. intuition discriminate.
+Qed.
